@@ -147,8 +147,8 @@ def polarity(ctx, res):
                     continue
                 if isinstance(st, ast.Try):
                     continue
-                if isinstance(st, ast.If) and "UNOBSERVABLE_VALUES" in norm(
-                        st.test):
+                if isinstance(st, ast.If) and _is_unobservable_test(
+                        mod, st.test):
                     continue
                 bad = st
             loops = [st for st in chain if isinstance(st, ast.For)]
@@ -255,7 +255,9 @@ def projection(ctx, res):
     mod = repo.module(HTH)
     fn = repo.inlined(HTH, "iter_objects")
     res.instance("iter_objects", mod.loc(fn))
-    res.oblige("UNOBSERVABLE_VALUES" in names_in(fn)
+    res.oblige(("UNOBSERVABLE_VALUES" in names_in(fn)
+                or any(_is_unobservable_test(mod, n.test)
+                       for n in ast.walk(fn) if isinstance(n, ast.If)))
                and any("__dict__" in norm(n) for n in ast.walk(fn)
                        if isinstance(n, ast.Attribute)),
                "iter_objects:filter", mod.loc(fn),
@@ -266,17 +268,45 @@ def projection(ctx, res):
     for side in ("old", "new"):
         guards = [n for n in ast.walk(och) if isinstance(n, ast.If)
                   and f"{ev}.{side}" in norm(n.test)
-                  and "UNOBSERVABLE_VALUES" in norm(n.test)]
+                  and _is_unobservable_test(mod, n.test)]
         ok = False
         for gd in guards:
             for c in _aorn_calls(gd):
                 kws = {k.arg: k.value for k in c.keywords}
                 if norm(kws.get("object")) == f"{ev}.{side}":
                     ok = True
+            # guard-clause form: `if not <filter>(event.side): return`
+            # followed, in the same block, by the (un)hooking call
+            if not ok and gd.body and isinstance(gd.body[-1], ast.Return) \
+                    and not gd.orelse:
+                for blk in [b for n in ast.walk(och) for b in (
+                        getattr(n, "body", None), getattr(n, "orelse", None))
+                        if isinstance(b, list) and gd in b]:
+                    for later in blk[blk.index(gd) + 1:]:
+                        for c in _aorn_calls(later):
+                            kws = {k.arg: k.value for k in c.keywords}
+                            if norm(kws.get("object")) == f"{ev}.{side}":
+                                ok = True
         res.oblige(ok, f"observer_change_handler:guard:{side}", mod.loc(och),
                    f"the {side} value is (un)hooked without the "
                    f"UNOBSERVABLE_VALUES guard applied at registration")
     res.floor(7)
+
+
+def _is_unobservable_test(mod, test):
+    """the test applies the UNOBSERVABLE_VALUES filter: inline, or through a
+    one-argument module-level predicate whose body consults that table"""
+    if "UNOBSERVABLE_VALUES" in norm(test):
+        return True
+    for c in ast.walk(test):
+        if isinstance(c, ast.Call) and isinstance(c.func, ast.Name) \
+                and c.func.id in mod.functions and len(c.args) == 1:
+            f = mod.functions[c.func.id]
+            if "UNOBSERVABLE_VALUES" in names_in(f) and all(
+                    r.value is not None for r in ast.walk(f)
+                    if isinstance(r, ast.Return)):
+                return True
+    return False
 
 
 # ---------------------------------------------------------------------------
@@ -590,7 +620,12 @@ def undo_complete(ctx, res):
         if not hits:
             res.oblige(True, m, "", "")
     # the undo itself
-    tries = [t for t in ast.walk(call) if isinstance(t, ast.Try)]
+    from ..pyfacts import expand_locals as _xl
+    call_i = repo.inlined(rel, "_AddOrRemoveNotifier.__call__")
+
+    def _n(e):
+        return norm(_xl(call_i, e))
+    tries = [t for t in ast.walk(call_i) if isinstance(t, ast.Try)]
     ok_handler = False
     for t in tries:
         for h in t.handlers:
@@ -598,14 +633,14 @@ def undo_complete(ctx, res):
                     "Exception", "BaseException"):
                 continue
             pops = [n for n in ast.walk(h) if isinstance(n, ast.Call)
-                    and norm(n.func) == "self._processed.pop" and not n.args]
+                    and _n(n.func) == "self._processed.pop" and not n.args]
             adds = [n for n in ast.walk(h) if isinstance(n, ast.Call)
                     and isinstance(n.func, ast.Attribute)
                     and n.func.attr in ("add_to", "remove_from")]
             # inverse chosen by self.remove with opposite polarity
             inverse = False
             for i in ast.walk(h):
-                if isinstance(i, ast.If) and norm(i.test) == "self.remove":
+                if isinstance(i, ast.If) and _n(i.test) == "self.remove":
                     b = [n.func.attr for n in ast.walk(ast.Module(i.body, []))
                          if isinstance(n, ast.Call)
                          and isinstance(n.func, ast.Attribute)
@@ -644,7 +679,7 @@ def undo_complete(ctx, res):
                         "Exception", "BaseException"):
                     continue
                 undo = [c for c in _aorn_calls(h)
-                        if any(k.arg == "remove" and norm(k.value) in (
+                        if any(k.arg == "remove" and norm(_xl(fn, k.value)) in (
                             "not remove",) for k in c.keywords)]
                 reraise = bool(h.body) and isinstance(h.body[-1], ast.Raise) \
                     and h.body[-1].exc is None
